@@ -2,8 +2,8 @@
   drv_c27 — replays the op stream of go/C27 (cmd/verif-c27) on SH.Model.PromEval (Cfg.fixed).
 
     > store tags=<a:b:c;…> ev=<series:sec:val,…>     stored series (tag values of tags 1..3) and their events
-    > ts step=<S> lod=<L> startx=<i> vs=<i> ve=<i> times=<t0,t1,…>
-    > eval what=<w|-> <node> … <node>                 nodes root first (as the PromQL text reads), selector last
+    > ts step=<S> lod=<L> startx=<i> vs=<i> ve=<i> times=<t0,t1,…> w=<bucket width per point>
+    > eval <prefix notation>                           unary node tokens (one operand), bin:<op>:<dflt|on|ign>:<labels> (two), sel:<what|->
     > win w=<W> step=<S> strict=<0|1> t=<…> v=<…>     the bare window cursor (values 1 = present, _ = missing)
   observations: `n=<k>` then one line `{tags} v0 v1 …` per result series, sorted.
 -/
@@ -14,7 +14,7 @@ open SH SH.PromEval
 
 structure St where
   store : Store := ⟨[], []⟩
-  ts : TS := ⟨[], 0, 0, 0, 1, 1⟩
+  ts : TS := ⟨[], 0, 0, 0, 1, 1, []⟩
 
 def parseRat? (s : String) : Option Rat :=
   match s.splitOn "/" with
@@ -96,6 +96,39 @@ def parseNode? (tok : String) : Option Node :=
     pure (.qot q r sub)
   | _ => none
 
+def parseBinOp? : String → Option BinOp
+  | "add" => some .add | "sub" => some .sub | "mul" => some .mul | "div" => some .div
+  | "eq" => some .eq | "gt" => some .gt | "lt" => some .lt | "ge" => some .ge | "le" => some .le | _ => none
+
+def parseMatching? (kind ls : String) : Option Matching :=
+  match kind with
+  | "dflt" => some .dflt
+  | "on" => (parseLabels? ls).map .on
+  | "ign" => (parseLabels? ls).map .ignoring
+  | _ => none
+
+/-- prefix notation: unary node tokens have one operand, `bin:op:match:labels` two, `sel:what` none -/
+def parseExpr? : Nat → List String → Option (Expr × List String)
+  | 0, _ => none
+  | _, [] => none
+  | fuel + 1, tok :: rest =>
+    match tok.splitOn ":" with
+    | ["sel", w] => (parseWhat? w).map (fun w => (.sel w, rest))
+    | ["bin", op, mk, ls] =>
+      match parseBinOp? op, parseMatching? mk ls with
+      | some op, some m =>
+        match parseExpr? fuel rest with
+        | some (l, rest1) =>
+          match parseExpr? fuel rest1 with
+          | some (r, rest2) => some (.bin op m l r, rest2)
+          | none => none
+        | none => none
+      | _, _ => none
+    | _ =>
+      match parseNode? tok with
+      | some n => (parseExpr? fuel rest).map (fun p => (.un n p.1, p.2))
+      | none => none
+
 def showTags (t : Tags) : String :=
   "{" ++ ",".intercalate (t.map (fun p => s!"{p.1}={p.2}")) ++ "}"
 
@@ -111,16 +144,20 @@ def step (st : St) (toks : List String) : St × List String :=
     match (kv tg "tags").bind parseTags?, (kv ev "ev").bind parseEvents? with
     | some tags, some evs => ({ st with store := ⟨tags, evs⟩ }, [])
     | _, _ => (st, ["bad-op"])
-  | ["ts", s, l, sx, vs, ve, tm] =>
+  | ["ts", s, l, sx, vs, ve, tm, wd] =>
     match (kv s "step").bind String.toInt?, (kv l "lod").bind String.toInt?, (kv sx "startx").bind String.toNat?,
-          (kv vs "vs").bind String.toNat?, (kv ve "ve").bind String.toNat?, (kv tm "times").bind parseIntList? with
-    | some s, some l, some sx, some vs, some ve, some tm =>
-      ({ st with ts := { times := tm, startX := sx, viewStart := vs, viewEnd := ve, lodStep := l, step := s } }, [])
-    | _, _, _, _, _, _ => (st, ["bad-op"])
-  | "eval" :: w :: nodes =>
-    match (kv w "what").bind parseWhat?, nodes.mapM parseNode? with
-    | some w, some ns => (st, render (exec Cfg.fixed st.store st.ts w ns.reverse))
-    | _, _ => (st, ["bad-op"])
+          (kv vs "vs").bind String.toNat?, (kv ve "ve").bind String.toNat?, (kv tm "times").bind parseIntList?,
+          (kv wd "w").bind parseIntList? with
+    | some s, some l, some sx, some vs, some ve, some tm, some wd =>
+      ({ st with ts := { times := tm, startX := sx, viewStart := vs, viewEnd := ve, lodStep := l, step := s, widths := wd } }, [])
+    | _, _, _, _, _, _, _ => (st, ["bad-op"])
+  | "eval" :: toks =>
+    match parseExpr? (toks.length + 1) toks with
+    | some (e, []) =>
+      match execE Cfg.fixed st.store st.ts e with
+      | some ss => (st, render ss)
+      | none => (st, ["err"])
+    | _ => (st, ["bad-op"])
   | ["win", w, s, strict, t, v] =>
     match (kv w "w").bind String.toInt?, (kv s "step").bind String.toInt?, (kv strict "strict").bind String.toNat?,
           (kv t "t").bind parseIntList?, (kv v "v").map (fun s => (parseList s).mapM parseVal?) with
